@@ -81,6 +81,12 @@ def gen(rng, tier):
             yield {'k': kind, 'x': [[val() for _ in range(nc)] for _ in range(nr)], 'sigma': sigma, 'dtype': dtype}
         else:
             yield {'k': kind, 'x': [val() for _ in range(nr)], 'w': rng.randint(1, min(nr, 40)), 'which': rng.choice(['filtering', 'utils']), 'dtype': dtype}
+    for _ in range(6 if tier == 'quick' else 100):       # a few entries dwarf the rest of the series (running mean, both implementations)
+        nr = rng.choice([12, 40, 90])
+        xs = [float(rng.randint(-50, 50)) for _ in range(nr)]
+        xs[rng.randrange(nr // 2)] = rng.choice([3e17, -1e15, 7e12, 2e9])
+        for which in ('filtering', 'utils'):
+            yield {'k': 'rmean', 'x': xs, 'w': rng.randint(1, min(nr, 12)), 'which': which, 'dtype': 'float64'}
     for _ in range(3):
         yield {'k': 'gauss3d', 'x': [[[1.0, 2.0], [3.0, 4.0]], [[5.0, 6.0], [7.0, 8.0]]], 'sigma': 1.0}
         # more than two dimensions also when some axes have length one
